@@ -43,6 +43,24 @@ THEOREMS = [
     "Nix.C07.axis_sampled",
     "Nix.C07.axis_range",
     "Nix.C07.generated_tables",
+    # sessions (Pure/DimSession.lean): histories of changes and questions through several descriptor objects
+    "Nix.C07.session_answer",
+    "Nix.C07.session_run_answer",
+    "Nix.C07.session_handle_stable",
+    "Nix.C07.session_change_visible",
+    "Nix.C07.session_change_elsewhere",
+    "Nix.C07.session_ticks_ascending",
+    "Nix.C07.session_range_index",
+    "Nix.C07.session_range_indices",
+    "Nix.C07.session_linked_index",
+    "Nix.C07.link_values",
+    "Nix.C07.session_sampled_index",
+    "Nix.C07.session_set_index",
+    # sampling_interval <= 0, stated exactly
+    "Nix.C07.negative_interval_mirror",
+    "Nix.C07.negative_interval_meets",
+    "Nix.C07.zero_interval",
+    "Nix.C07.nonzero_interval",
 ]
 ASSUMPTIONS = [
     "floats are modelled as exact rationals (DESIGN section 5): on inputs whose float path is exact the implementation "
